@@ -1,4 +1,4 @@
-package packed
+package text
 
 // Native bodies of the harness intrinsics, used only for replaying a solver counterexample
 // against the real build (go test -overlay). Values are popped from the recorded model.
